@@ -44,6 +44,7 @@ import Relic.Driver.TsaX
 import Relic.Driver.Xar
 import Relic.Driver.CsVerify
 import Relic.Driver.Scd
+import Relic.Driver.Daemon
 open Relic
 
 def dispatch (line : String) : String :=
@@ -98,6 +99,7 @@ def dispatch (line : String) : String :=
   | "TSX" :: rest => Relic.Driver.TsaX.handle rest
   | "XAR" :: rest => Relic.Driver.Xar.handle rest
   | "SCD" :: rest => Relic.Driver.Scd.handle rest
+  | "DAEMON" :: rest => Relic.Driver.Daemon.handle rest
   | _ => "bad-op"
 
 partial def loop (h : IO.FS.Stream) (out : IO.FS.Stream) : IO Unit := do
